@@ -499,7 +499,13 @@ class Gen:
                 return [d, d, dv, sv, body, 'assoc', *self.junk()]
         if kind == 'update':
             x = r.choice(mine)
-            return [x[0], x[1], dv, sv, body, r.choice([x[5], x[5], 'assoc', 'dis', 'no', 'pre']), *self.junk()]
+            if x[5] == 'assoc':
+                new = r.choice(['assoc', 'assoc', 'dis'])
+            elif x[7] is not None:       # binding has ended
+                new = r.choice([x[5], 'dis', 'no'])
+            else:
+                new = r.choice([x[5], x[5], 'assoc', 'dis', 'no', 'pre'])
+            return [x[0], x[1], dv, sv, body, new, *self.junk()]
         if kind == 'associate':
             cand = [x for x in mine if x[5] != 'assoc' and x[7] is None] or [x for x in mine if x[5] != 'assoc'] or mine
             x = r.choice(cand)
@@ -535,7 +541,7 @@ class Gen:
         rows = self.table_rows()
         mode = 'wire' if r.random() < self.wire_ratio else 'direct'
         shape = r.choices(['single', 'multi-descr', 'same-descr', 'two-assoc', 'dup-handle', 'invalid', 'empty'],
-                          [30, 18, 18, 6, 6, 12, 1 if mode == 'direct' else 0])[0]
+                          [36, 20, 18, 4, 4, 9, 1 if mode == 'direct' else 0])[0]
         valid_kinds = ['new', 'new-assoc', 'update', 'associate', 'disassociate']
         ctx = [1, 2, 3] + ([4] if self.lc2 else [])
         if shape == 'single':
@@ -576,17 +582,17 @@ class Gen:
         r = self.rng
         dh = None
         x = r.random()
-        if x < 0.12:
+        if x < (0.5 if self.lc2 else 0.12):
             dh = 2
-        elif x < 0.2 and self.lc2:
+        elif x < 0.8 and self.lc2:
             dh = 4
-        elif x < 0.27:
+        elif x < 0.87 and (self.lc2 or x < 0.19):
             dh = r.choice([1, 3, 10, 20])
         return ['loc', r.randint(1, 4), dh]
 
 
 def gen_and_run(sess, rng, wire_ratio, n_ops):
-    lc2 = rng.random() < 0.25
+    lc2 = rng.random() < 0.2
     wf = rng.random() < 0.85
     case = {'wf': wf, 'lc2': lc2, 'loc0': rng.choice([None, None, 1, 2]), 'start': gen_start(rng, wf, lc2), 'ops': []}
     hist = History(sess, case)
@@ -631,15 +637,23 @@ def _report(ctx, hist, shapes=None):
     for kind, res, dv in hist.stats:
         ctx.count(f'op:{kind}:{res}')
         ctx.count(f'version-step:{dv}')
-    for sh in shapes or []:
-        ctx.count('shape:' + sh)
+    for sh, (_, res, _) in zip(shapes or [], hist.stats):
+        ctx.count(f'shape:{sh}:' + res.split(' ')[0])
+    for op in hist.case['ops']:
+        if op[0] == 'scs':
+            ctx.count('scs-mode:' + op[1])
+            ctx.count(f'scs-proposals:{min(len(op[2]), 4)}')
     ctx.traces += 1
     changes = sum(1 for _, res, dv in hist.stats if res == 'ok' and dv == 1)
     rejected = sum(1 for _, res, _ in hist.stats if res != 'ok')
     multi = sum(1 for op in hist.case['ops'] if op[0] == 'scs' and len(op[2]) > 1)
-    ctx.case(hist.case, nontrivial=changes > 0 and (rejected > 0 or multi > 0),
-             sample={'start': hist.case['start'][:3], 'ops': hist.case['ops'][:3], 'answers': hist.expected[-3:]}
-             if ctx.evaluations < 2 else None)
+    sample = None
+    if len(ctx.samples) < ctx.max_samples and (ctx.evaluations % 7 == 0):
+        n0 = 2 + len(hist.case['start'])
+        sample = {'driver_lines': hist.lines[1:n0 + 4], 'implementation_answers': hist.expected[n0:n0 + 4]}
+    ctx.case(hist.case, nontrivial=changes > 0 and (rejected > 0 or multi > 0), sample=sample)
+    if sample is None and ctx.samples and ctx.samples[-1] is hist.case:
+        ctx.samples.pop()      # keep the evidence readable: only the compact samples above
 
 
 def corpus_cases():
@@ -652,7 +666,60 @@ def corpus_cases():
     return res
 
 
+ANCHORS = [('tutorial/productandroles/contextprovider.py', ['_set_context_state']),
+           ('src/sdc11073/mdib/providermdibxtra.py', ['set_location', 'disassociate_all']),
+           ('src/sdc11073/mdib/transactions.py', ['get_context_state', 'mk_context_state', 'disassociate_all', 'write_entity',
+                                                   'process_transaction', '_handle_state_updates']),
+           ('src/sdc11073/provider/providerimpl.py', ['set_location'])]
+
+
+def _anchor_coverage(cov):
+    """executed / executable lines and branch arcs of the anchored functions (ContextStateTransaction's in transactions.py)"""
+    import ast
+    repo = os.environ.get('VERIF_REPO', '/repo')
+    res = {}
+    for rel, names in ANCHORS:
+        path = os.path.join(repo, rel)
+        try:
+            tree = ast.parse(open(path).read())
+            _, stmts, _, missing, _ = cov.analysis2(path)
+        except Exception as ex:  # noqa: BLE001
+            res[rel] = f'not measured: {ex!r}'
+            continue
+        for node in ast.walk(tree):
+            if isinstance(node, ast.ClassDef) and rel.endswith('transactions.py') and node.name not in ('ContextStateTransaction', '_TransactionBase'):
+                for sub in ast.walk(node):
+                    if isinstance(sub, ast.FunctionDef):
+                        sub.name = '_other_' + sub.name
+        for node in ast.walk(tree):
+            if isinstance(node, ast.FunctionDef) and node.name in names:
+                lines = [ln for ln in stmts if node.lineno <= ln <= node.end_lineno]
+                miss = [ln for ln in missing if node.lineno <= ln <= node.end_lineno]
+                res[f'{rel}:{node.name}'] = {'statements': len(lines), 'executed': len(lines) - len(miss), 'missing_lines': miss}
+    return res
+
+
 def run(ctx):
+    cov = None
+    try:
+        import coverage
+        repo = os.environ.get('VERIF_REPO', '/repo')
+        cov = coverage.Coverage(data_file=None, include=[os.path.join(repo, rel) for rel, _ in ANCHORS])
+        cov.start()
+    except Exception:  # noqa: BLE001
+        cov = None
+    try:
+        _run(ctx)
+    finally:
+        if cov is not None:
+            cov.stop()
+            try:
+                ctx.notes['anchor_coverage'] = _anchor_coverage(cov)
+            except Exception as ex:  # noqa: BLE001
+                ctx.notes['anchor_coverage'] = f'not measured: {ex!r}'
+
+
+def _run(ctx):
     sess = Session()
     try:
         hists = []
@@ -661,11 +728,18 @@ def run(ctx):
             hists.append(hist)
             _report(ctx, hist)
             ctx.count('corpus')
-        n_hist = ctx.n(70, 1400)
+        n_hist = ctx.n(70, 800)
         wire_ratio = 0.12
         for i in range(n_hist):
             rng = ctx.subrng('hist', i)
-            hist, shapes = gen_and_run(sess, rng, wire_ratio, rng.randint(4, 14))
+            try:
+                hist, shapes = gen_and_run(sess, rng, wire_ratio, rng.randint(4, 14))
+            except Exception:
+                import traceback
+                os.makedirs(os.path.join(core.OUT, 'c10'), exist_ok=True)
+                with open(os.path.join(core.OUT, 'c10', 'harness_exc.log'), 'a') as f:
+                    f.write(f'seed={ctx.seed} tier={ctx.tier} history={i}\n{traceback.format_exc()}\n')
+                raise
             hists.append(hist)
             _report(ctx, hist, shapes)
         _compare(ctx, hists)
